@@ -96,9 +96,9 @@ def aimed(rng):
 def gen(rng, tier):
     quick = tier == "quick"
     cases = []
-    for _ in range(300 if quick else 5000):
+    for _ in range(200 if quick else 5000):
         cases.append(aimed(rng))
-    for _ in range(600 if quick else 12000):
+    for _ in range(350 if quick else 12000):
         cases.append(rand_case(rng, rng.randrange(4, 30), rng.choice([0.0, 0.0, 0.15, 0.4])))
     seen = set()
     out = []
